@@ -109,6 +109,7 @@ class Gen:
         self.profile = profile
         self.max_depth = max_depth
         self.used = set()
+        self.forced = []
 
     def d(self, s):
         return self.draw(s)
@@ -189,6 +190,8 @@ class Gen:
             if self.d(st.integers(0, 60)) == 0:
                 kinds = ["fail"]
         k = self.pick(kinds)
+        if self.forced:  # focused tier: the next chunk kinds are prescribed
+            k = self.forced.pop(0)
         self.used.add(k)
         return getattr(self, "c_" + k)(ts, depth)
 
@@ -467,7 +470,11 @@ class Gen:
         if ts and ts[0]["prim"] == "list":
             a, b = self.unified([rv.targs(ts[0])[0], ts[0]] + ts[1:], ts[1:], self.d(st.integers(0, 2)), depth)
             return [P("IF_CONS", a, b)]
-        return self.c_option_or(ts, depth) + []
+        # nothing to destruct on the stack: push an option / or / list value first
+        inner = self.d(small_type(0))
+        t = self.pick([T("option", inner), T("or", inner, self.d(small_type(0))), T("or", self.d(small_type(0)), inner), T("list", inner)])
+        pre = [push(t, self.d(gt.values(t)))]
+        return pre + self.c_ifnone([t] + ts, depth)
 
     def c_if(self, ts, depth):
         pre = []
@@ -755,10 +762,15 @@ for _op, _tb in ra.BINARY.items():
         ra.BINARY_BY_TYPES.setdefault(_k, []).append(_op)
 
 
+ALL_KINDS = ["push", "stack", "arith", "compare", "comb", "combpush", "fieldflow", "option_or", "list", "setmap", "strbytes", "env",
+             "usetop", "pack", "ticket", "if", "lambda", "lambdarec", "loop", "iter", "dip", "dipstack", "ifnone", "build", "noop"]
+
+
 @st.composite
-def programs(draw, n_inputs=(0, 3), size=(1, 8), depth=2, profile="core", keep_lambdas=False):
-    """Returns dict(inputs=[(type, value)...] top first, code=[...])."""
+def programs(draw, n_inputs=(0, 3), size=(1, 8), depth=2, profile="core", keep_lambdas=False, force=None):
+    """Returns dict(inputs=[(type, value)...] top first, code=[...]). force: chunk kinds of the first chunks."""
     g = Gen(draw, profile, depth)
+    g.forced = list(force or [])
     k = draw(st.integers(*n_inputs))
     inputs = []
     for _ in range(k):
